@@ -27,7 +27,7 @@ try:
         open(p, "w").write(s.replace(old, new))
     print(subprocess.run(["git", "-C", d, "diff", "--stat"], capture_output=True, text=True).stdout.strip())
     if a.tests:
-        r = subprocess.run(["/venv/bin/python", "-m", "pytest", "-q", "-x", "-p", "no:cacheprovider", "--timeout=900"], cwd=d, capture_output=True, text=True)
+        r = subprocess.run(["/venv/bin/python", "-m", "pytest", "-q", "-p", "no:cacheprovider", "--timeout=900"], cwd=d, capture_output=True, text=True)
         print("TESTS:", r.stdout.strip().splitlines()[-1])
     for p in a.props:
         env = dict(os.environ, VERIF_REPO=d, VERIF_SEED=a.seed)
